@@ -1,6 +1,6 @@
 (* C06 — A memoized rule body runs at most once per input position (packrat bound). *)
 From PegV Require Import Utf8 State Terminals Syntax Fields Literals Model Inv Memo Extracted.
-From PegV Require WellFormed OnceWF Once OnceExamples.
+From PegV Require WellFormed OnceWF Once OnceExamples CleanFrame.
 
 Theorem C06_facts :
   memo_closed Extracted.rcfg = true /\ Extracted.file_codegen_src_rule_rs = true /\
@@ -150,3 +150,35 @@ Theorem C06_refuted_through_leftrec :
                    ~ NoDup (g_evals gl)).
 Proof. split; [exact OnceExamples.reentrant_evaluated_twice|exact OnceExamples.style_memo_add_evaluated_twice]. Qed.
 Print Assumptions C06_refuted_through_leftrec.
+
+(* ---- only marked rules use the cache ---------------------------------------------------------------
+   For every set of rule names closed under reference that contains no @memoize / @leftrec rule
+   (CleanFrame.v), every rule of the set, every bound, stateful hooks: the call leaves the cache exactly
+   as it found it, and its result does not depend on the cache it is started with (nor on the callback
+   list or the ghost logs): the packrat table is written and read by the wrappers of marked rules only. *)
+Theorem C06_unmarked_rules_leave_the_cache :
+  forall (ustate : Type) (scfg : state_cfg) (tcfg : term_cfg) (fcfg : fields_cfg)
+         (rcfg : rule_cfg) (hk : hooks ustate) (g : grammar) (clean : name -> bool),
+    (forall n : name, clean n = true -> CleanFrame.rule_clean g clean n) ->
+    (forall (n : name) (r : rule),
+       clean n = true -> find_rule g n = Some r -> CleanFrame.eclean clean (r_def r) = true) ->
+    clean n_Whitespace = true ->
+    forall (n : nat) (nm : name) (st : pstate) (gl : glob ustate),
+      clean nm = true ->
+      g_cache (snd (ev_rule (run ustate scfg tcfg fcfg rcfg hk g n) nm st gl)) = g_cache gl.
+Proof. exact CleanFrame.clean_cache_untouched. Qed.
+Print Assumptions C06_unmarked_rules_leave_the_cache.
+
+Theorem C06_unmarked_rules_ignore_the_cache :
+  forall (ustate : Type) (scfg : state_cfg) (tcfg : term_cfg) (fcfg : fields_cfg)
+         (rcfg : rule_cfg) (hk : hooks ustate) (g : grammar) (clean : name -> bool),
+    (forall n : name, clean n = true -> CleanFrame.rule_clean g clean n) ->
+    (forall (n : name) (r : rule),
+       clean n = true -> find_rule g n = Some r -> CleanFrame.eclean clean (r_def r) = true) ->
+    clean n_Whitespace = true ->
+    forall (n : nat) (nm : name) (st : pstate) (a b : glob ustate),
+      clean nm = true -> g_user a = g_user b ->
+      CleanFrame.Rres (fst (ev_rule (run ustate scfg tcfg fcfg rcfg hk g n) nm st a))
+                      (fst (ev_rule (run ustate scfg tcfg fcfg rcfg hk g n) nm st b)).
+Proof. exact CleanFrame.clean_ignores_cache. Qed.
+Print Assumptions C06_unmarked_rules_ignore_the_cache.
